@@ -338,10 +338,14 @@ def r07g(run):
               construct="assign_properties shape", message="assign_properties has no loop over self.fields installing properties")
     if len(loops) == 1 and sets:
         lp = loops[0]
+        # the field variable of the loop, by role: the value element of the `.items()` target (or the sole target)
+        tg = lp.stmt.target
+        tg = tg.elts[-1] if isinstance(tg, ast.Tuple) else tg
+        FV = tg.id if isinstance(tg, ast.Name) else "field"
         body_entry = [s for s, k in lp.succ if s.kind == "branch" and s.polarity][0]
         # every path through an iteration reaches the setattr unless the field is a @property field
         skips = [b for b in fa.cfg.nodes if b.kind == "branch" and not b.is_for and b.polarity
-                 and unparse(b.test) == "field.property"]
+                 and unparse(b.test) == f"{FV}.property"]
         reach = fa.cfg.reach_from_succ(body_entry, kinds=(N,), avoid=[n for n, c in sets] + skips)
         run.check("R07g", f, "the only fields skipped are @property fields", lp not in reach,
                   construct="field skipped without accessors",
@@ -350,13 +354,13 @@ def r07g(run):
                   necessity="a subclass re-declaring an inherited field keeps the base class accessor: assignments are "
                             "validated against the base field's type and flags")
         for n, c in sets:
-            ok = len(c.args) == 3 and unparse(c.args[0]) == "self.obj" and unparse(c.args[1]) == "field.attname"
+            ok = len(c.args) == 3 and unparse(c.args[0]) == "self.obj" and unparse(c.args[1]) == f"{FV}.attname"
             run.check("R07g", f, "the property is installed on the parsed class under the field's attribute name", ok,
                       construct="property installed elsewhere", message=f"`{unparse(c)[:70]}` does not install on "
                       f"self.obj / field.attname", node=c)
         for what in ("setter", "deleter", "getter"):
             bound = [c for n, c in fa.all_calls() if call_attr(c) == "partial" and c.args and unparse(c.args[0]) == what]
-            ok = all(kwarg(c, "field") is not None and unparse(kwarg(c, "field")) == "field" for c in bound) and bool(bound)
+            ok = all(kwarg(c, "field") is not None and unparse(kwarg(c, "field")) == FV for c in bound) and bool(bound)
             run.check("R07g", f, f"the {what} is bound to the field of this iteration", ok,
                       construct=f"{what} bound to another field", message=f"assign_properties binds the {what} without "
                       f"field=field")
@@ -426,8 +430,18 @@ def r07i(run, S):
         for n, c in fa.all_calls():
             if is_super_call(c) and c.func.attr in ("pop", "__delitem__", "clear", "popitem"):
                 # removals of undeclared (extra) keys have no attribute counterpart
-                if any(unparse(a) in ("field", "not field") and (p is False if unparse(a) == "field" else p)
-                       for a, p in fa.facts.atoms_at(n)):
+                def no_field(a, p):
+                    # `<field local>` is falsy: the local bound to the get_field(...) lookup, whatever it is called
+                    neg = isinstance(a, ast.UnaryOp) and isinstance(a.op, ast.Not)
+                    v = a.operand if neg else a
+                    if not isinstance(v, ast.Name):
+                        return False
+                    defs = fa.rd.defs_of(n, v.id)
+                    if not (defs and all(d.kind == "stmt" and isinstance(d.ast, ast.Assign) and isinstance(d.ast.value, ast.Call)
+                                         and call_attr(d.ast.value) == "get_field" for d in defs)):
+                        return False
+                    return p if neg else (p is False)
+                if any(no_field(a, p) for a, p in fa.facts.atoms_at(n)):
                     continue
                 raw.append((n, c))
         attr_rm = []
